@@ -268,6 +268,37 @@ func (d *Describer) eval(v ssa.Value, s Sigma, blk *ssa.BasicBlock, pred int, de
 		}
 		return res
 	case *ssa.BinOp:
+		if (v.Op == token.EQL || v.Op == token.NEQ) && (isNilConst(v.X) || isNilConst(v.Y)) {
+			// x == nil where x is a φ of this block: the value that arrives over the edge taken
+			x := v.X
+			if isNilConst(x) {
+				x = v.Y
+			}
+			_, fixed := s["nil?"+d.D(x)] // a valuation that fixes the merged value itself wins
+			if ph, ok := x.(*ssa.Phi); ok && !fixed && ph.Block() == blk && pred >= 0 && pred < len(ph.Edges) {
+				e := ph.Edges[pred]
+				res := U
+				switch {
+				case isNilConst(e):
+					res = T
+				case neverNil(e):
+					res = F
+				default:
+					if val, ok := s["nil?"+d.D(e)]; ok {
+						res = F
+						if val == "nil" {
+							res = T
+						}
+					}
+				}
+				if res != U {
+					if v.Op == token.NEQ {
+						return res.Not()
+					}
+					return res
+				}
+			}
+		}
 		if v.Op == token.EQL || v.Op == token.NEQ {
 			if bt, ok := v.X.Type().Underlying().(*types.Basic); ok && bt.Info()&types.IsBoolean != 0 {
 				a := d.eval(v.X, s, blk, pred, depth+1)
@@ -289,6 +320,38 @@ func (d *Describer) eval(v ssa.Value, s Sigma, blk *ssa.BasicBlock, pred int, de
 		return F
 	}
 	return U
+}
+
+// neverNil: values that are non-nil by construction.
+func neverNil(v ssa.Value) bool {
+	switch x := v.(type) {
+	case *ssa.Alloc, *ssa.MakeClosure, *ssa.Function, *ssa.Global, *ssa.FieldAddr, *ssa.IndexAddr:
+		return true
+	case *ssa.MakeInterface:
+		if _, ptr := x.X.Type().Underlying().(*types.Pointer); !ptr {
+			switch x.X.Type().Underlying().(type) {
+			case *types.Struct, *types.Basic, *types.Array:
+				return true
+			}
+			return false
+		}
+		return neverNil(x.X)
+	case *ssa.Call:
+		if f := x.Call.StaticCallee(); f != nil {
+			switch FuncName(f) {
+			case "fmt.Errorf", "errors.New":
+				return true
+			case "status.Errorf", "status.Error":
+				// nil only for codes.OK (= 0)
+				if f.Pkg != nil && f.Pkg.Pkg.Path() == "google.golang.org/grpc/status" && len(x.Call.Args) > 0 {
+					if c, ok := x.Call.Args[0].(*ssa.Const); ok && c.Value != nil && c.Value.ExactString() != "0" {
+						return true
+					}
+				}
+			}
+		}
+	}
+	return false
 }
 
 // Reach is the result of one walk.
